@@ -471,8 +471,9 @@ ITEMS = location_types() + budget_types() + error_types() + [
          fragment=r'match src\.peek\(\) \{.*?src\.finish\(\)\s*\.map_err\(\|e\| maybe_with_snippet\(e, input, with_snippet, crop_radius\)\)\?;',
          fragment_flags='S',
          wrapper="fn from_str_leftover_check_fragment<'a>(src: &mut LiveEvents<'a>, input: &str, with_snippet: bool, crop_radius: usize) -> Result<(), Error> { {FRAG} Ok(()) }",
-         props=['C05', 'C09', 'C10', 'C01'],
+         props=['C05', 'C11', 'C09', 'C10', 'C01'],
          rewrites=[(r'Error::multiple_documents\("use from_multiple or from_multiple_with_options"\)', 'error_multiple_documents("use from_multiple or from_multiple_with_options")', None, 'R8'),
+                   (r'scalar_is_nullish\(value, style\)', 'scalar_is_nullish(value.as_ref(), style)', None, 'R15'),
                    (r'src\.finish\(\)\s*\.map_err\(\|e\| maybe_with_snippet\(e, input, with_snippet, crop_radius\)\)\?;',
                     'match src.finish() { Ok(__v) => __v, Err(e) => { return Err(maybe_with_snippet(e, input, with_snippet, crop_radius)); } };', None, 'R18')],
          ensures=[('C05:nothing_may_be_left_after_the_root_value', 'r is Ok ==> old(src).rest().len() == 0 || final(src).seen_doc_end')],
@@ -481,7 +482,7 @@ ITEMS = location_types() + budget_types() + error_types() + [
          fragment=r'match src\.peek\(\) \{.*?if let Err\(e\) = src\.finish\(\) \{\s*return Err\(attach_snippet\(e\)\);\s*\}',
          fragment_flags='S',
          wrapper="fn from_reader_leftover_check_fragment<'a>(src: &mut LiveEvents<'a>) -> Result<(), Error> { {FRAG} Ok(()) }",
-         props=['C05', 'C09', 'C10', 'C01'],
+         props=['C05', 'C11', 'C09', 'C10', 'C01'],
          rewrites=[(r'Error::multiple_documents\("use read or read_with_options to obtain the iterator"\)', 'error_multiple_documents("use read or read_with_options to obtain the iterator")', None, 'R8')],
          ensures=[('C05:nothing_may_be_left_after_the_root_value', 'r is Ok ==> old(src).rest().len() == 0 || final(src).seen_doc_end')],
          canaries=['C05:nothing_may_be_left_after_the_root_value']),
